@@ -348,7 +348,7 @@ func (t Table) matchingHosts(req *http.Request, globCache *GlobCache) (hosts []s
 			continue
 		}
 
-		if g.Match(host) {
+		if globMatch(g, host) {
 			hosts = append(hosts, pattern)
 		}
 	}
